@@ -60,7 +60,31 @@ pub fn run_c15(cx: &mut Cx) {
             let revealed: Vec<Integer> = (0..n).filter(|i| !hidden.contains(i)).map(|i| msgs[i].clone()).collect();
             let p = Presentation { pk: key.pk.clone(), bases: key.bases.0[..n].to_vec(), cpk: key.cpk.clone(), proof_json, revealed, hidden: hidden.clone(), n };
             deliver(cx, verifier, p.clone(), "none".into(), true);
-            tamper(cx, verifier, key.clone(), p);
+            tamper(cx, verifier, key.clone(), p.clone());
+            // Mallory: sub-proofs of a second honest presentation of ANOTHER credential (other
+            // attributes, same hidden set) spliced into this one
+            if !hidden.is_empty() {
+                let other: Vec<Integer> = (0..n).map(|i| gen_attr(cx.run_seed, 500 + i as u64, 0).value).collect();
+                let (k3, h3) = (key.clone(), hidden.clone());
+                cx.step(holder, "proof_gen-other", StepOpts::default(), move || { let sig = issue_plain(&k3, &other); holder_present(&k3, &sig, &other, &h3) }, move |cx, st| {
+                    let Ok(pj2) = st.out else { return };
+                    let (va, vb) = (parse(&p.proof_json), parse(&pj2));
+                    for (name, path) in [("range_proofs_commited_mi[0]", "/CL03/range_proofs_commited_mi/0"), ("proofs_commited_mi[0]", "/CL03/proofs_commited_mi/0"), ("range_proof_e", "/CL03/range_proof_e"), ("spok", "/CL03/spok")] {
+                        let mut v = va.clone();
+                        if let (Some(slot), Some(src)) = (v.pointer_mut(path), vb.pointer(path)) { *slot = src.clone(); } else { continue; }
+                        let mut q = p.clone();
+                        q.proof_json = v.to_string();
+                        deliver(cx, verifier, q, format!("forged_subproof_splice:{name}"), false);
+                    }
+                    {
+                        let mut v = va.clone();
+                        for path in ["/CL03/proofs_commited_mi/0", "/CL03/range_proofs_commited_mi/0"] { if let (Some(slot), Some(src)) = (v.pointer_mut(path), vb.pointer(path)) { *slot = src.clone(); } }
+                        let mut q = p.clone();
+                        q.proof_json = v.to_string();
+                        deliver(cx, verifier, q, "forged_subproof_pair_splice:proofs_commited_mi[0]+range_proofs_commited_mi[0]".into(), false);
+                    }
+                });
+            }
         });
     });
     cx.run();
